@@ -86,6 +86,8 @@ class Module:
         self.name = relpath[:-3].replace('/', '.')  # crysp.sha
         self.src = src
         self.tree = canon(ast.parse(src, filename=relpath))
+        from . import inline
+        self.tree, self.inlined, self.inline_failed = inline.apply(self.tree, relpath)
         self.functions = {}   # qualname -> ast.FunctionDef  ("SHA2.update", "rol", "Blake.update.G")
         self.classes = {}     # name -> ast.ClassDef
         self.assigns = {}     # module-level name -> list of ast.Assign/AugAssign nodes (in order)
